@@ -55,6 +55,7 @@ def shards(tier, seed):
 def configure(cfg, tier):
     cfg.incremental_first = False
     cfg.slice_first = True
+    cfg.simplify_div = True
     cfg.fresh_branches = True
     cfg.interval_first = True
     cfg.branch_timeout_ms = 20000
